@@ -347,6 +347,11 @@ def r5_nli_interp(ctx):
                         nm = ast.unparse(c.func.func) + '(..)(..)'
                     if isinstance(c.func, ast.Attribute) and ast.unparse(c.func.value).startswith('NliSolver'):
                         continue            # the eta kernels (sign: R3 for the analytic model; not decided for the GGN integrals)
+                    if isinstance(c.func, ast.Name):
+                        # a local that only ever names one of the eta kernels (`compute_eta = NliSolver._ggn_approx`)
+                        ad = [v for _, v in local_defs(f.node).get(c.func.id, []) if isinstance(v, ast.AST)]
+                        if ad and all(isinstance(v, ast.Attribute) and ast.unparse(v.value).startswith('NliSolver') for v in ad):
+                            continue
                     n += 1
                     ctx.check('R5.nli-interp', f'{site(f, c)} {nm}', nm in KEEP, key(f, f'nli-op|{nm}'),
                               f'{nm}(..) takes part in spreading the NLI over the channels; it is not in the sign-preserving set '
